@@ -95,6 +95,12 @@ def gen_history(rng, tree, nops):
         # as the node itself - delete and pop must accept the spelling and remove the node itself
         hid = []
         xp = X.render(rng, ref, p, hidden=0.08, hidden_at=hid)
+        if rng.random() < 0.08:
+            # a doubled slash inside the path: lookup reads it as one
+            cuts = [i for i in range(1, len(xp) - 1) if xp[i] == "/" and xp[i - 1] != "/" and xp[i + 1] != "/"]
+            if cuts:
+                i = rng.choice(cuts)
+                xp = xp[:i] + "/" + xp[i:]
         if r < 0.8 and rng.random() < QMARK:
             xp = "?" + xp   # lookup accepts '?' + path (the same node for every path that resolves): delete / pop must too
         if r < 0.45:
